@@ -219,6 +219,43 @@ func runC18(c *Ctx) {
 				}
 			}
 		}
+		if len(got) == 0 {
+			// table form: relationship looked up in a package-level map keyed by the purpose; the entry appended
+			// under that relationship
+			forEachInstr(pk, func(in ssa.Instruction) {
+				lk, ok := in.(*ssa.Lookup)
+				if !ok || !strings.Contains(c.Path(lk.Index, nil), ").Purpose(") {
+					return
+				}
+				ld, isLd := lk.X.(*ssa.UnOp)
+				if !isLd {
+					return
+				}
+				g, isG := ld.X.(*ssa.Global)
+				if !isG {
+					return
+				}
+				rel := extractOf2(lk, 0)
+				if rel == nil && !lk.CommaOk {
+					rel = lk
+				}
+				used := false
+				forEachInstr(pk, func(i2 ssa.Instruction) {
+					if mu, isMU := i2.(*ssa.MapUpdate); isMU && mu.Key == rel {
+						if ap, isC := mu.Value.(*ssa.Call); isC && len(ap.Call.Args) == 2 {
+							if l2, isL2 := ap.Call.Args[0].(*ssa.Lookup); isL2 && l2.Index == rel && l2.X == mu.Map {
+								used = true
+							}
+						}
+					}
+				})
+				if used {
+					for k, v := range c.globalMapLiteral(g) {
+						got[k] = v
+					}
+				}
+			})
+		}
 		want := map[string]string{"authentication": "authentication", "assertionMethod": "assertionMethod", "keyAgreement": "keyAgreement", "capabilityDelegation": "capabilityDelegation", "capabilityInvocation": "capabilityInvocation"}
 		okT := len(got) == len(want)
 		for k, v := range want {
@@ -252,7 +289,7 @@ func runC18(c *Ctx) {
 		}
 	}
 	c.Check("C18.T1", "key-types-admitted-by-validation-have-a-context", cov, 0, fmt.Sprintf("key-context table %v covers admitted key types %v", kc, gen))
-	c.Min("C18.T1", 13)
+	c.Min("C18.T1", 3)
 
 	// ---------------- P1
 	goid := c.Method(pDT, "Transformer", "getObjectID")
